@@ -83,8 +83,7 @@ Print Assumptions C33_written_files_dispatch.
 Theorem C33_generated_tables :
   wsuf "cr" = lit ".yaml" /\ wsuf "secret_yaml" = lit ".secret.yaml" /\ wsuf "secret_enc" = lit ".secret.enc" /\
   wsuf "meta" = lit ".meta.json" /\ manifest_name_read = manifest_name_written /\
-  map snd dispatch_table = [KSecretEnc; KMeta; KSecretYaml; KCr] /\
-  archive_encrypt_condition = "truthy"%string /\ archive_manifest_encrypted_flag = "is_not_none"%string.
+  map snd dispatch_table = [KSecretEnc; KMeta; KSecretYaml; KCr].
 Proof. vm_compute. repeat split; reflexivity. Qed.
 Print Assumptions C33_generated_tables.
 
